@@ -361,13 +361,20 @@ def _sequences(R, rule, tu, call, E, calls, tabs):
               ((0, 0, 0), (23, 0, 0), ("DT_DURH", 25)), ((0, 0, 0), (23, 0, 0), ("DT_DURM", 1440)), ((10, 0, 0), (10, 0, 50), ("DT_DURS", 7)),
               ((10, 0, 0), (11, 0, 0), ("DT_DURH", 0)), ((23, 59, 50), (0, 0, 10), ("DT_DURS", 5)), ((5, 0, 0), (0, 0, 0), ("DT_DURH", -1)),
               ((5, 0, 0), (1, 0, 0), ("DT_DURM", -120)), ((0, 0, 10), (23, 59, 50), ("DT_DURS", -5))]
-    for fst, lst, (t, v) in tcases:
-        st, recs = replay(_trec(E, fst), _trec(E, lst), [dur(t, v)])
+    tcases = [(f_, l_, tv, False) for (f_, l_, tv) in tcases]
+    # anchored on LAST: the same bounds, the progression ends on LAST (bounds around midnight among them)
+    tcases += [((23, 20, 0), (2, 0, 0), ("DT_DURM", 20), True), ((23, 30, 0), (2, 0, 0), ("DT_DURM", 20), True),
+               ((10, 0, 0), (11, 10, 0), ("DT_DURM", 20), True), ((23, 30, 0), (2, 0, 0), ("DT_DURH", 3), True),
+               ((1, 0, 0), (23, 10, 0), ("DT_DURM", -20), True), ((23, 20, 0), (22, 0, 0), ("DT_DURM", -20), True),
+               ((22, 0, 0), (2, 0, 0), ("DT_DURH", 1), True), ((0, 0, 0), (23, 0, 0), ("DT_DURH", 6), True)]
+    for fst, lst, (t, v), from_last in tcases:
+        st, recs = replay(_trec(E, fst), _trec(E, lst), [dur(t, v)], 0, from_last)
         n += 1
         got = [(r.get("t.hms.h"), r.get("t.hms.m"), r.get("t.hms.s")) for r in (recs or [])]
         mult = {"DT_DURH": 3600, "DT_DURM": 60, "DT_DURS": 1}[t]
         a, b = fst[0] * 3600 + fst[1] * 60 + fst[2], lst[0] * 3600 + lst[1] * 60 + lst[2]
         what = "dseq %02d:%02d:%02d %+d%s %02d:%02d:%02d" % (fst + (v, {"DT_DURH": "h", "DT_DURM": "m", "DT_DURS": "s"}[t]) + lst)
+        what += " --compute-from-last" if from_last else ""
         if v == 0:
             # main() takes a zero increment on times of day for `none given` and guesses one from the bounds: finite is what matters
             if st == "endless":
@@ -380,6 +387,9 @@ def _sequences(R, rule, tu, call, E, calls, tabs):
             end = b if b <= a else b - 86400
         exp = []
         x = a
+        if from_last:
+            # the first element is LAST minus as many steps as fit between the bounds
+            x = end - (abs(end - a) // abs(v * mult)) * (v * mult)
         while (v > 0 and x <= end) or (v < 0 and x >= end):
             y_ = x % 86400
             exp.append((y_ // 3600, y_ // 60 % 60, y_ % 60))
